@@ -404,7 +404,7 @@ func ruleNoLoopVarCapture(c *Ctx, rule string, pkgs ...string) {
 					if len(captured) > 0 {
 						idx++
 						bad++
-						c.Fail(rule, f.Name+"|loop-var-capture#"+itoa(idx), y.Pos(), "%s starts a closure inside a loop that reads the loop variable %s: with go < 1.22 all these closures share one variable — the work meant for each element is done for the last one only", f.Name, captured[0])
+						c.FailConfined(rule, f.Name+"|loop-var-capture#"+itoa(idx), y.Pos(), "%s starts a closure inside a loop that reads the loop variable %s: with go < 1.22 all these closures share one variable — the work meant for each element is done for the last one only", f.Name, captured[0])
 					}
 					return true
 				}
